@@ -33,6 +33,7 @@ import (
 	"os"
 	"strings"
 	"testing"
+	"time"
 
 	"github.com/mgtv-tech/redis-GunYu/config"
 	"github.com/mgtv-tech/redis-GunYu/pkg/redis/client/common"
@@ -48,6 +49,7 @@ type vfC15Ev struct {
 	how     string // e = error reply, d = dropped connection
 	sub     string // kind p: the call that is started (c r x l)
 	pk      int    // kind p: number of requests served before the next one is held
+	timedOut bool  // kind late (sub = c r x): the call gave up at its deadline (else: it waited for the late answer)
 }
 
 type vfC15Trace struct {
@@ -106,6 +108,12 @@ func (tr *vfC15Trace) opLine(idx int) string {
 			fmt.Fprintf(&sb, "%s:%s:%s:%d:%s", ev.kind, vfutil.HexS(ev.key), vfutil.HexS(tr.ids[ev.inst]), a, ev.how)
 		case "p":
 			fmt.Fprintf(&sb, "p:%s:%s:%s:%d", ev.sub, vfutil.HexS(ev.key), vfutil.HexS(tr.ids[ev.inst]), ev.pk)
+		case "late":
+			o := "d"
+			if ev.timedOut {
+				o = "t"
+			}
+			fmt.Fprintf(&sb, "late:%s:%s:%s:%s", ev.sub, vfutil.HexS(ev.key), vfutil.HexS(tr.ids[ev.inst]), o)
 		case "g":
 			fmt.Fprintf(&sb, "g:%s", vfutil.HexS(tr.ids[ev.inst]))
 		case "mv":
@@ -249,8 +257,9 @@ func (rn *vfC15Runner) snapshot() (int64, map[string]vfEntry) {
 }
 
 // call performs one election call on the real code.
-func vfC15Call(kind string, el Election) vfC15Res {
-	ctx := context.Background()
+func vfC15Call(kind string, el Election) vfC15Res { return vfC15CallCtx(context.Background(), kind, el) }
+
+func vfC15CallCtx(ctx context.Context, kind string, el Election) vfC15Res {
 	switch kind {
 	case "c":
 		role, err := el.Campaign(ctx)
@@ -477,6 +486,65 @@ func (rn *vfC15Runner) runTrace(tr *vfC15Trace, src string) {
 			_, post := rn.snapshot()
 			x.settle(n, ev.kind, ev.key, in, now, pre, post, res, false)
 			x.foreignUntouched(n, ev.kind, ev.key, in.id, pre, post)
+		case "late":
+			// The answer of this call comes AFTER the caller's deadline: the store holds the request, the caller's
+			// context ends (cancelled by the harness = its deadline passing, no clock involved), then the store
+			// executes and answers. cmd/syncer.go gives every election call a context with a deadline; whether
+			// the election honours it is the code's choice: the call either waits for the late answer (ev "d") or
+			// gives up (ev "t": the script still runs at the store = a lost-but-applied call). Either way the SAME
+			// election object goes on being used afterwards: every later call must get the store's answer to
+			// THAT call.
+			in := insts[ev.inst]
+			el := in.election(ev.key)
+			if ev.sub == "x" {
+				x.clearTold(ev.key, in.id)
+			}
+			rn.st.armPause(in.conn, 0)
+			ctx, cancel := context.WithCancel(context.Background())
+			done := make(chan vfC15Res, 1)
+			go func() { done <- vfC15CallCtx(ctx, ev.sub, el) }()
+			var res vfC15Res
+			returned := false
+			select {
+			case res = <-done: // no request reached the store (cannot happen for these calls): an ordinary call
+				rn.st.disarmPause()
+				returned = true
+				s.Count("late_pause_not_reached")
+			case <-rn.st.pausedCh:
+				evalsBefore := rn.st.VerifEvals()
+				cancel()
+				select { // an implementation that honours its context returns now; one that does not stays blocked
+				case res = <-done:
+					returned = true
+					tr.evs[n].timedOut = res.err != nil
+					x.replay["trace"] = tr.opLine(idx) // the replay says that the call gave up
+				case <-time.After(3 * time.Millisecond):
+				}
+				close(rn.st.releaseCh)
+				if !returned {
+					res = <-done
+				} else {
+					// the store still executes and answers: wait until it has (counted, with a generous limit)
+					for i := 0; i < 2000 && rn.st.VerifEvals() == evalsBefore; i++ {
+						time.Sleep(time.Millisecond)
+					}
+					time.Sleep(2 * time.Millisecond) // let the abandoned answer reach whoever still waits for it
+				}
+			}
+			cancel()
+			if tr.evs[n].timedOut {
+				out = "-"
+				s.Count("late_call_gave_up_" + ev.sub)
+			} else {
+				out = vfC15Out(ev.sub, res)
+				s.Count("late_call_waited_" + ev.sub)
+				_, post := rn.snapshot()
+				x.settle(n, ev.sub, ev.key, in, now, pre, post, res, false)
+			}
+			{
+				_, post := rn.snapshot()
+				x.foreignUntouched(n, ev.sub, ev.key, in.id, pre, post)
+			}
 		case "p":
 			// start the call; the store serves its first pk requests and holds the next
 			in := insts[ev.inst]
@@ -600,6 +668,7 @@ func (rn *vfC15Runner) runTrace(tr *vfC15Trace, src string) {
 			rn.refusedSeen = rf
 		}
 	}
+	op = tr.opLine(idx) // a `late` event now says whether the call gave up (t) or waited (d)
 	s.Op(op, lines...)
 	s.Count("trace_" + src)
 	s.Add("events", len(tr.evs))
@@ -826,6 +895,14 @@ func vfC15ParseTrace(line string) (*vfC15Trace, error) {
 			i, ok := idIdx[string(vfutil.UnHex(p[1]))]
 			if !ok {
 				return nil, fmt.Errorf("unknown instance in %q", tok)
+			}
+			ev.inst = i
+		case p[0] == "late" && len(p) == 5:
+			ev.sub = p[1]
+			ev.key = string(vfutil.UnHex(p[2]))
+			i, ok := idIdx[string(vfutil.UnHex(p[3]))]
+			if !ok || (ev.sub != "c" && ev.sub != "r" && ev.sub != "x") || (p[4] != "d" && p[4] != "t") {
+				return nil, fmt.Errorf("bad late call %q", tok)
 			}
 			ev.inst = i
 		case p[0] == "p" && len(p) == 5:
@@ -1146,6 +1223,35 @@ func TestVerifC15(t *testing.T) {
 	// the double's Lua interpreter vs Lean evalLua on the generated AST
 	for i := 0; i < vfutil.Scale(6000, 100000); i++ {
 		rn.luaOp(r)
+	}
+
+	// ---- answers that come AFTER the caller's deadline (cmd/syncer.go gives every election call a context with a
+	// deadline): a leads, one of its calls (renew / campaign / resign) is answered late, then ALL lists of
+	// length <= 3 (quick) / <= 4 (thorough) of ordinary events on the SAME election object: every later call must
+	// get the store's answer to that call (a stale answer kept from the abandoned call is told-leader-while-the-
+	// store-names-another: monitors success-over-foreign-lease / success-without-lease / two-holders)
+	{
+		alpha := []vfC15Ev{
+			{kind: "x", key: "k", inst: 0}, {kind: "c", key: "k", inst: 1}, {kind: "c", key: "k", inst: 0},
+			{kind: "r", key: "k", inst: 0}, {kind: "t", delta: 3001}, {kind: "r", key: "k", inst: 1},
+		}
+		maxLen := vfutil.Scale(3, 4)
+		for _, sub := range []string{"r", "c", "x"} {
+			var rec func(suffix []vfC15Ev)
+			rec = func(suffix []vfC15Ev) {
+				if len(suffix) > 0 {
+					evs := append([]vfC15Ev{{kind: "c", key: "k", inst: 0}, {kind: "late", sub: sub, key: "k", inst: 0}}, suffix...)
+					rn.runTrace(&vfC15Trace{now0: 7, ids: []string{"a", "b"}, ttls: []int{3, 3}, evs: evs}, "late_answers")
+				}
+				if len(suffix) == maxLen {
+					return
+				}
+				for _, e := range alpha {
+					rec(append(append([]vfC15Ev{}, suffix...), e))
+				}
+			}
+			rec(nil)
+		}
 	}
 
 	// ---- a CLUSTER-type input as lease store (cmd/syncer.go hands Input.Redis to NewRedisCluster as it is):
